@@ -348,6 +348,10 @@ func (rm *RequestManager) updateLastResponses(responses []gsmsg.GraphSyncRespons
 }
 
 func (rm *RequestManager) processExtensionsForResponse(p peer.ID, response gsmsg.GraphSyncResponse) bool {
+	// only the peer a request was sent to may drive its hooks, updates and cancellation
+	if requestStatus, ok := rm.inProgressRequestStatuses[response.RequestID()]; !ok || requestStatus.p != p {
+		return false
+	}
 	result := rm.responseHooks.ProcessResponseHooks(p, response)
 	if len(result.Extensions) > 0 {
 		updateRequest := gsmsg.NewUpdateRequest(response.RequestID(), result.Extensions...)
